@@ -5,6 +5,7 @@
    2 ELEMENT : kind v             merr tree  uerr  opt(decoded value)
    3 DOC     : cfg  doc(tree)  opt(expected osm value)  uerr  opt(decoded osm value)
    4 CHANGE  : cfg  v(change value) merr tree uerr opt(decoded change value)
+   6 BIG     : cfg n  derr summary  merr tree-summary  uerr summary   (see check_big)
    5 GO-ONLY : (nothing) — a case outside the modelled fragment (Changeset.Change non-nil),
                judged by the harness: marshal (unmarshal (marshal v)) = marshal v
    codes: 1 = model <> implementation (marshal tree, or unmarshal result class/value),
@@ -172,6 +173,114 @@ Definition check_change : P (list Z) :=
       ret (dom ++ j1m ++ j1u ++ j2)%list
   end.
 
+(* ---- 6 BIG: size thresholds, compactly.  Both sides expand the same generator from n:
+   element i (0-based) has id i+1, lat = i mod 90, lon = 0.5 and is a node (i even), a way
+   (i mod 4 = 1) or a relation (i mod 4 = 3).  (a) the document with these n elements, kinds
+   interleaved, is unmarshalled; (b) the OSM value holding them is marshalled and its own
+   output unmarshalled.  Observations are summaries: per-kind counts and order-sensitive hashes
+   of the ids; for the output tree the number of elements and a hash of (kind, id). ---- *)
+Definition hmod : Z := 2305843009213693951.
+Definition hstep (h x : Z) : Z := (h * 1000003 + x + 1) mod hmod.
+Definition hash_ids (l : list Z) : Z := fold_left hstep l 7.
+
+Definition big_kind (i : Z) : Z := if i mod 2 =? 0 then 1 else if i mod 4 =? 1 then 2 else 3.
+Definition kind_str (k : Z) : string := if k =? 1 then "node" else if k =? 2 then "way" else "relation".
+Fixpoint big_elems (n : nat) (i : Z) : list json :=
+  match n with
+  | O => []
+  | S k => JObj [("type", JStr (kind_str (big_kind i))); ("id", JNum (i + 1) 0);
+                 ("lat", JNum (i mod 90) 0); ("lon", JNum 5 1)] :: big_elems k (i + 1)
+  end.
+Definition big_doc (n : nat) : json := JObj [("version", JNum 6 1); ("elements", JArr (big_elems n 0))].
+
+Definition with_id (t : ty) (id : Z) : val :=
+  match zero t with VStruct (u :: _ :: rest) => VStruct (u :: VInt id :: rest) | z => z end.
+Definition node_val (id lat : Z) : val :=
+  match zero t_Node with
+  | VStruct (u :: _ :: _ :: _ :: rest) => VStruct (u :: VInt id :: VFloat lat 0 :: VFloat 5 1 :: rest)
+  | z => z
+  end.
+Fixpoint big_vals (n : nat) (i : Z) (k : Z) : list val :=
+  match n with
+  | O => []
+  | S m =>
+      let r := big_vals m (i + 1) k in
+      if big_kind i =? k then
+        (if k =? 1 then node_val (i + 1) (i mod 90) else with_id (if k =? 2 then t_Way else t_Relation) (i + 1)) :: r
+      else r
+  end.
+Definition big_osm (n : nat) : osmv :=
+  mkOsm "0.6" "" "" "" "" None (big_vals n 0 1) (big_vals n 0 2) (big_vals n 0 3) [] [] [].
+
+(* SPEC side: the ids of each kind, straight from the generator *)
+Fixpoint big_ids (n : nat) (i : Z) (k : Z) : list Z :=
+  match n with
+  | O => []
+  | S m => if big_kind i =? k then (i + 1) :: big_ids m (i + 1) k else big_ids m (i + 1) k
+  end.
+
+Definition val_id (v : val) : Z := match v with VStruct (_ :: VInt id :: _) => id | _ => -1 end.
+(* counts and hashes: nodes, ways, relations; count of everything else *)
+Definition osm_summary (o : osmv) : list Z :=
+  [Z.of_nat (List.length (o_nodes o)); hash_ids (map val_id (o_nodes o));
+   Z.of_nat (List.length (o_ways o)); hash_ids (map val_id (o_ways o));
+   Z.of_nat (List.length (o_relations o)); hash_ids (map val_id (o_relations o));
+   Z.of_nat (List.length (o_changesets o) + List.length (o_notes o) + List.length (o_users o))
+   + (match o_bounds o with Some _ => 1 | None => 0 end)].
+Definition spec_summary (n : nat) : list Z :=
+  [Z.of_nat (List.length (big_ids n 0 1)); hash_ids (big_ids n 0 1);
+   Z.of_nat (List.length (big_ids n 0 2)); hash_ids (big_ids n 0 2);
+   Z.of_nat (List.length (big_ids n 0 3)); hash_ids (big_ids n 0 3); 0].
+
+Definition kind_code (s : string) : Z :=
+  if String.eqb s "node" then 1 else if String.eqb s "way" then 2 else if String.eqb s "relation" then 3 else 9.
+Definition elem_code (e : json) : Z :=
+  match e with
+  | JObj kv => match lookup "type" kv, lookup "id" kv with
+               | Some (JStr t), Some (JNum id 0) => kind_code t * 1000000007 + id
+               | _, _ => -1
+               end
+  | _ => -1
+  end.
+Definition tree_summary (j : json) : list Z :=
+  match j with
+  | JObj kv => match lookup "elements" kv with
+               | Some (JArr es) => [Z.of_nat (List.length es); hash_ids (map elem_code es)]
+               | _ => [-1; -1]
+               end
+  | _ => [-1; -1]
+  end.
+(* SPEC side of the output: nodes, then ways, then relations *)
+Definition spec_tree_summary (n : nat) : list Z :=
+  [Z.of_nat n;
+   hash_ids (map (fun id => 1 * 1000000007 + id) (big_ids n 0 1)
+             ++ map (fun id => 2 * 1000000007 + id) (big_ids n 0 2)
+             ++ map (fun id => 3 * 1000000007 + id) (big_ids n 0 3))].
+
+Definition zs_eqb := list_eqb Z.eqb.
+Definition res_summary (r : res osmv) (uerr : bool) (obs : list Z) : list Z :=
+  match r with
+  | Ok o => code_if (negb uerr && zs_eqb (osm_summary o) obs) 1
+  | Err => code_if uerr 1
+  | Unmodelled => [3]
+  end.
+
+Definition check_big : P (list Z) :=
+  _cfg <- pint ;; n <- pnat ;;
+  derr <- pbool ;; dsum <- plist pint ;;            (* (a) document decoded *)
+  merr <- pbool ;; tsum <- plist pint ;;            (* (b) value marshalled: tree summary *)
+  uerr <- pbool ;; usum <- plist pint ;;            (*     own output unmarshalled *)
+  let o := big_osm n in
+  let dom := code_if (wf_osm o) 3 in
+  let tree := osm_marshal std o in
+  let j1 := (res_summary (osm_unmarshal (big_doc n)) derr dsum
+             ++ code_if (negb merr && zs_eqb (tree_summary tree) tsum) 1
+             ++ res_summary (osm_unmarshal tree) uerr usum)%list in
+  let j2 := code_if (negb derr && zs_eqb dsum (spec_summary n)
+                     && negb merr && zs_eqb tsum (spec_tree_summary n)
+                     && negb uerr && zs_eqb usum (spec_summary n)) 2 in
+  ret (dom ++ j1 ++ j2)%list.
+
 Definition check_case (t : toks) : list Z :=
   match parse_all (tag <- pint ;;
                    if tag =? 1 then check_osm
@@ -179,6 +288,7 @@ Definition check_case (t : toks) : list Z :=
                    else if tag =? 3 then check_doc
                    else if tag =? 4 then check_change
                    else if tag =? 5 then ret []   (* judged on the Go side only (OracleFail) *)
+                   else if tag =? 6 then check_big
                    else pfail) t with
   | Some codes => codes
   | None => [0]
